@@ -77,6 +77,43 @@ def unpack_bits(m, kind):
     return fn
 
 
+def unpack_mixed(m0, m):
+    """a record whose first field is given as plain-int bits and whose second field as secret bits"""
+    def fn(k):
+        S = k.pk.PackList([k.pk.PackIntMod(m0), k.pk.PackIntMod(m)])
+        b0 = (m0 - 1).bit_length()
+        bl = (m - 1).bit_length()
+        bits = [(2 >> i) & 1 for i in range(b0)] + [k.S("b%d" % i) for i in range(bl)]
+        return S.unpack(bits, 0)[1]
+    return fn
+
+
+def two_repeats(k, secret):
+    """two PackRepeat instances of different total width in one schema, one of them nested in a repeat"""
+    pk = k.pk
+    S = pk.PackList([pk.PackRepeat(pk.PackIntMod(4), 2), pk.PackRepeat(pk.PackBool(), 3), pk.PackIntMod(8),
+                     pk.PackRepeat(pk.PackRepeat(pk.PackBool(), 2), 2)])
+    mk = k.S if secret else k.v
+    val = [[mk("v0"), mk("v1")], [mk("v2"), mk("v3"), mk("v4")], mk("v5"), [[mk("v6"), mk("v7")], [mk("v8"), mk("v9")]]]
+    bits = S.pack(val)
+    return [S.unpack(bits, 0), len(bits) - S.bitlen(), S.bitlen() - 14]
+
+
+def ref_two_repeats(k, secret):
+    v = [k.v("v%d" % i) for i in range(10)]
+    tb = (lambda x: x) if secret else (lambda x: (x != 0) * 1)
+    return [[[v[0], v[1]], [tb(v[2]), tb(v[3]), tb(v[4])], v[5], [[tb(v[6]), tb(v[7])], [tb(v[8]), tb(v[9])]]], 0, 0]
+
+
+def dom_two_repeats(k, secret):
+    v = [k.v("v%d" % i) for i in range(10)]
+    d = (v[0] >= 0) & (v[0] < 4) & (v[1] >= 0) & (v[1] < 4) & (v[5] >= 0) & (v[5] < 8)
+    if secret:
+        for i in (2, 3, 4, 6, 7, 8, 9):
+            d = d & ((v[i] == 0) | (v[i] == 1))
+    return d
+
+
 def bits_value(k, m):
     bl = (m - 1).bit_length()
     acc = 0
@@ -115,6 +152,19 @@ def build(n=4, tier="quick"):
                               ref=(lambda k, m=m: bits_value(k, m) < m), dom=None,
                               assume=(lambda k, bl=bl: [_allbits(k, bl)]),
                               tags={"pack", "unpack", "assert", kind + "bits", "m=%d" % m}))
+    # a secret field after a plain one: its range check must not depend on the kind of the first bit of the record
+    for m in (5, 3):
+        bl = (m - 1).bit_length()
+        ins = tuple("b%d" % i for i in range(bl))
+        ents.append(Entry("range_unpack_mixed_int%d" % m, unpack_mixed(10, m), ins,
+                          ref=(lambda k, m=m: bits_value(k, m) < m), dom=None,
+                          assume=(lambda k, bl=bl: [_allbits(k, bl)]),
+                          tags={"pack", "unpack", "assert", "lcbits", "mixed", "m=%d" % m}))
+    ins10 = tuple("v%d" % i for i in range(10))
+    ents.append(Entry("pack_plain_two_repeats", (lambda k: two_repeats(k, False)), ins10, ref=(lambda k: ref_two_repeats(k, False)),
+                      dom=(lambda k: dom_two_repeats(k, False)), tags={"pack", "plain"}))
+    ents.append(Entry("pack_secret_two_repeats", (lambda k: two_repeats(k, True)), ins10, ref=(lambda k: ref_two_repeats(k, True)),
+                      dom=(lambda k: dom_two_repeats(k, True)), tags={"pack", "secret"}))
     nms = [e.name for e in ents]
     assert len(nms) == len(set(nms)), [x for x in nms if nms.count(x) > 1]
     return ents
